@@ -10,14 +10,19 @@ RecorderMC.tla (exhaustive bounded run trees), RecorderJudge.tla (validation of 
     through 1|10..12|100.. and 9->10, attachment subsets): counter = index into global_iterations, unique coordinates,
     nothing recorded under a no-record frame, list_cases() = execution order, the flat recursive listing of every case =
     exactly the cases recorded while its frame was open, list_sources, per-source listings.  The deliberately broken
-    window (off by one) must be REFUTED, and so must the two places where the transcribed reader is not what the
-    property states (nested listing across an unrecorded level; list_cases(<coordinate>, recurse=False)).
+    window (off by one) must be REFUTED, and so must the places where the transcribed (pinned) reader is not what the
+    property states (nested listing across an unrecorded level; list_cases(<coordinate>, recurse=False); a sub-group
+    whose name merely starts with "root" - list_sources / list_cases(<source>); get_case(<int>) with an index that falls
+    on a problem case).  With the repairs of the last two (constant Fix) the theorems are proved again, also for the
+    run trees whose sub-group is called "rootsub".
 (b) V: generated models (feed-forward and coupled, NLBGS / Newton / ...), drivers (run_model sequences, DOEDriver,
     ScipyOptimizeDriver SLSQP), SqliteRecorders attached to random subsets of {problem, driver, systems, nonlinear
     solvers} with random recording_options.  Class-level wrappers log every push / pop / record (requester, coordinate,
     counter) and take an INDEPENDENT live snapshot of every model variable (physical values, from the root vectors) at
     each record.  Afterwards every reader query is logged: list_sources, list_source_vars, list_cases for every source
-    and every case x recurse x flat, get_case for every case with the names in .inputs/.outputs/.residuals.
+    and every case x recurse x flat (also under the 'root.<path>' name of every attached system / solver), get_case for
+    every case with the names in .inputs/.outputs/.residuals, get_case(<int>) for the indices in and just outside the
+    range (both signs).  Some systems get names that merely start with 'root' (rootg1, root_c3, roots).
     TLC replays the event stream through Recorder.tla's actions (one event per step), and judges order, descendants,
     sources and the selected variable sets (fnmatch table from Python's own fnmatch, logic in TLA+).
     Values are compared here: recorded == snapshot, exactly.
@@ -257,6 +262,34 @@ def rand_options(rng, req, md):
     return o
 
 
+def rename_rootlike(md, rng):
+    """Give some systems a name that merely STARTS with 'root' (the reader marks the model root with the name 'root').
+    Names are only labels in the model description: every path is derived from comp['group'] / comp['name'], the list of
+    groups and the solver table (keyed by group path).  Returns the new names."""
+    done = []
+    r = rng.random()
+    if r < .45:
+        cand = [c for c in md['comps'] if c['kind'] != 'ivc']
+        if cand:
+            c = rng.choice(cand)
+            c['name'] = rng.choice(['root', 'rooted_', 'root_']) + c['name'] if rng.random() < .8 else 'roots'
+            done.append(ob.comp_path(c))
+    if .3 < r < .6:
+        tops = sorted(g for g in md['groups'] if g and '.' not in g)
+        if tops:
+            old = rng.choice(tops)
+            new = 'root' + old
+
+            def ren(path):
+                return new + path[len(old):] if (path == old or path.startswith(old + '.')) else path
+            md['groups'] = [ren(g) for g in md['groups']]
+            md['solvers'] = {ren(g): v for g, v in md['solvers'].items()}
+            for c in md['comps']:
+                c['group'] = ren(c['group'])
+            done.append(new)
+    return done
+
+
 def plan(seed, kind=None, quick=True):
     """deterministic scenario for a seed, or None"""
     rng0 = random.Random(seed * 7919 + 13)
@@ -273,6 +306,7 @@ def plan(seed, kind=None, quick=True):
     if not md['desvars']:
         return None
     md = copy.deepcopy(md)
+    rootnames = rename_rootlike(md, random.Random(seed * 31 + 5))
     # keep iterative solvers short: the subject is recording, not convergence (12 iterations: numbers pass 9 -> 10)
     for gp, sv in md['solvers'].items():
         if sv.get('nl'):
@@ -280,7 +314,7 @@ def plan(seed, kind=None, quick=True):
                                     maxiter=rng.choice([3, 12]) if kind == 'model' else rng.choice([2, 3]))
             if sv['nl']['name'] == 'newton' and rng.random() < .4:
                 sv['nl']['opts']['solve_subsystems'] = True
-    sc = {'seed': seed, 'kind': kind, 'scaling': scaling, 'md': md}
+    sc = {'seed': seed, 'kind': kind, 'scaling': scaling, 'md': md, 'rootnames': rootnames}
     # an objective (scalar: entry 0 of a 1-d output) - always for the optimizer, sometimes otherwise
     def make_objective():
         cand = [o for o in md['outs'] if md['comps'][o['comp']]['kind'] != 'ivc' and len(o['shape']) == 1]
@@ -309,6 +343,8 @@ def plan(seed, kind=None, quick=True):
     pool = [r for r in reqs if r not in must]
     k = rng.randrange(1, min(6, len(pool)) + 1)
     att_a = sorted(set(must + rng.sample(pool, k)))
+    if random.Random(seed * 31 + 6).random() < .3:
+        att_a = sorted(set(att_a + ['problem']))       # problem cases between the others: get_case(<int>), order
     files = {'a': att_a}
     if rng.random() < .3:
         files['b'] = sorted(rng.sample(reqs, rng.randrange(1, 3)))
@@ -433,7 +469,7 @@ def execute(sc, work):
     out = {'status': status, 'events': obs.events, 'snaps': obs.snaps, 'driver_name': p.driver._get_name(),
            'names': name_sets(p, md), 'files': {}}
     for lab, (rec, path) in recs.items():
-        out['files'][lab] = read_file(path) if os.path.exists(path) else {'missing': True}
+        out['files'][lab] = read_file(path, attached=sc['files'][lab]) if os.path.exists(path) else {'missing': True}
         for suffix in ('', '-journal'):
             try:
                 os.remove(path + suffix)
@@ -513,13 +549,24 @@ def _vals(d):
     return out
 
 
-def read_file(path, maxcoord=14):
+def public_source(r):
+    """the name under which the reader's API knows a requester (Recorder.tla: PublicSource)"""
+    if r in ('problem', 'driver'):
+        return r
+    kind, path = r.split(':', 1)
+    return ('root.' + path if path else 'root') + {'sys': '', 'nl': '.nonlinear_solver', 'ls': '.nonlinear_solver.linesearch'}[kind]
+
+
+def read_file(path, maxcoord=14, attached=()):
     import openmdao.api as om
     cr = om.CaseReader(path)
     out = {'queries': [], 'cases': []}
     sources = cr.list_sources(out_stream=None)
     out['sources'] = list(sources)
     out['source_vars'] = {}
+    # queried: every source the reader lists, and the name of every attached system / solver (one that recorded
+    # nothing is not a source: 'Source not found' is then the right answer)
+    sources = list(sources) + sorted(set(public_source(r) for r in attached if ':' in r) - set(sources))
     for s in sources:
         try:
             sv = cr.list_source_vars(s, out_stream=None)
@@ -544,6 +591,20 @@ def read_file(path, maxcoord=14):
             for flat in (True, False):
                 out['queries'].append({'src': c, 'rec': rec, 'flat': flat,
                                        'ans': _ans(lambda: cr.list_cases(c, recurse=rec, flat=flat, out_stream=None))})
+    # get_case(<int>): "an index into all cases" - every index for short files, else both ends and every problem case
+    n = len(allc)
+    if n <= 12:
+        idxs = list(range(-n - 1, n + 1))
+    else:
+        pc = [k for k, c in enumerate(allc) if '|' not in c]
+        idxs = sorted(set([0, 1, 2, n // 2, n - 2, n - 1, n, -1, -2, -n, -n - 1] + pc[:4] + [k - n for k in pc[:4]]))
+    out['idx'] = []
+    for i in idxs:
+        try:
+            case = cr.get_case(i)
+            out['idx'].append({'i': i, 'ans': {'k': 'flat', 'v': [case.name]}, 'cnt': int(case.counter)})
+        except Exception as e:
+            out['idx'].append({'i': i, 'ans': {'k': 'err', 'v': [type(e).__name__]}, 'cnt': 0})
     import warnings
     for k, c in enumerate(allc):
         with warnings.catch_warnings(record=True) as w:
@@ -683,7 +744,7 @@ def build_trace(sc, obs, lab):
     cases = [{'name': c.get('name', ''), 'source': c.get('source', 'ERROR:' + c.get('error', '')), 'counter': c.get('counter', -1),
               'inp': c.get('inp', []), 'out': c.get('out', []), 'res': c.get('res', [])} for c in f['cases']]
     return {'att': list(att), 'reqs': reqs, 'ev': ev, 'q': f['queries'], 'all': f['all'], 'sources': f['sources'],
-            'cases': cases, 'srcvars': srcvars, 'opts': opts, 'vars': vs, 'match': match, 'flags': trace_flags(ev, att)}, notes
+            'idx': f['idx'], 'cases': cases, 'srcvars': srcvars, 'opts': opts, 'vars': vs, 'match': match, 'flags': trace_flags(ev, att)}, notes
 
 
 def trace_flags(ev, att):
@@ -789,26 +850,45 @@ CONSTANTS
  MaxProb = 1
  Configs <- %s
  WinAdj %s
+ S1 = "%s"
+ Fix = {%s}
 """
-MC_INV = ['TypeOK', 'CounterOK', 'Unique', 'NoRecRule', 'Order', 'Descendants', 'Sources', 'SourceLists']
+MC_INV = ['TypeOK', 'CounterOK', 'Unique', 'NoRecRule', 'Order', 'Descendants', 'Sources', 'SourceLists', 'Indexed']
+ALLFIX = '"rootname", "getcase"'
 
 
 def model_check(ctx, quick):
-    cfg = MC_BASE % ('ConfigsQuick' if quick else 'ConfigsAll', '= 0') + ''.join('INVARIANT %s\n' % i for i in MC_INV) + \
-        'PROPERTY NoRecFrames\n'
-    ctx.tlc_check('mech/RecorderMC', ctx.write_cfg('RecorderMC.cfg', cfg), workers=max(2, TLC_WORKERS // 2), timeout=3000)
-    ctx.require_actions(['DriverBegin', 'ModelBegin', 'ProblemRecord', 'DriverIter', 'Totals', 'RootSolve', 'RootIter',
-                         'RunApply', 'SubSolve', 'SubIter', 'Leaf'])
-    # non-vacuity: the broken window must be refuted, and so must the two non-theorems of the transcribed reader
-    refuted = {}
-    for name, adj, inv in (('window+1', '= 1', 'Descendants'), ('window-1', '<- MinusOne', 'Descendants'),
-                           ('nested-across-unrecorded-level', '= 0', 'Nested'), ('coordinate-without-recurse', '= 0', 'CoordPlain')):
-        cfg = MC_BASE % ('ConfigsRefute', adj) + 'INVARIANT %s\n' % inv
-        r = ctx.tlc_run('mech/RecorderMC', ctx.write_cfg('RecorderMC_%s.cfg' % name.replace('+', 'p'), cfg), workers=min(TLC_WORKERS, 4),
-                        timeout=1200)
-        if inv not in r.violated:
-            raise MachineryError('RecorderMC: %s should be refuted (%s) but TLC says:\n%s' % (inv, name, r.tail(30)))
-        refuted[name] = inv
+    import concurrent.futures
+    import time
+    inv = ''.join('INVARIANT %s\n' % i for i in MC_INV) + 'PROPERTY NoRecFrames\n'
+
+    # non-vacuity: the broken window must be refuted, and so must the places where the transcribed (pinned) reader is
+    # not what the property states
+    def refute(k, name, conf, adj, s1, fix, inv1):
+        time.sleep(.3 * k)
+        cfg1 = MC_BASE % (conf, adj, s1, fix) + 'INVARIANT %s\n' % inv1
+        fname = 'RecorderMC_%s.cfg' % name.replace('+', 'p').replace(':', '_')
+        r = ctx.tlc_run('mech/RecorderMC', ctx.write_cfg(fname, cfg1), workers=2, timeout=1200)
+        if inv1 not in r.violated:
+            raise MachineryError('RecorderMC: %s should be refuted (%s) but TLC says:\n%s' % (inv1, name, r.tail(30)))
+        return inv1
+    items = (('window+1', 'ConfigsRefute', '= 1', 's1', ALLFIX, 'Descendants'),
+             ('window-1', 'ConfigsRefute', '<- MinusOne', 's1', ALLFIX, 'Descendants'),
+             ('nested-across-unrecorded-level', 'ConfigsRefute', '= 0', 's1', ALLFIX, 'Nested'),
+             ('coordinate-without-recurse', 'ConfigsRefute', '= 0', 's1', ALLFIX, 'CoordPlain'),
+             ('name-starting-with-root:list_sources', 'ConfigsRefute', '= 0', 'rootsub', '"getcase"', 'Sources'),
+             ('name-starting-with-root:list_cases', 'ConfigsRefute', '= 0', 'rootsub', '"getcase"', 'SourceLists'),
+             ('get_case-index-of-a-problem-case', 'ConfigsIdx', '= 0', 's1', '"rootname"', 'Indexed'))
+    with concurrent.futures.ThreadPoolExecutor(3) as ex:
+        futs = {it[0]: ex.submit(refute, k, *it) for k, it in enumerate(items)}
+        cfg = MC_BASE % ('ConfigsQuick' if quick else 'ConfigsAll', '= 0', 's1', ALLFIX) + inv
+        ctx.tlc_check('mech/RecorderMC', ctx.write_cfg('RecorderMC.cfg', cfg), workers=max(2, TLC_WORKERS // 2), timeout=3000)
+        ctx.require_actions(['DriverBegin', 'ModelBegin', 'ProblemRecord', 'DriverIter', 'Totals', 'RootSolve', 'RootIter',
+                             'RunApply', 'SubSolve', 'SubIter', 'Leaf'])
+        # the same theorems when the sub-group's name merely starts with "root" (the repaired reader)
+        cfg = MC_BASE % ('ConfigsIdx' if quick else 'ConfigsQuick', '= 0', 'rootsub', ALLFIX) + inv
+        ctx.tlc_check('mech/RecorderMC', ctx.write_cfg('RecorderMC_rootsub.cfg', cfg), workers=max(2, TLC_WORKERS // 2), timeout=3000)
+        refuted = {name: f.result() for name, f in futs.items()}
     return refuted
 
 
@@ -819,6 +899,29 @@ def classify_query(q, exp):
     if q['ans']['k'] == 'nested' and exp['k'] == 'nested':
         return 'nested-listing'
     return 'listing'
+
+
+def _strip_root(name):
+    return name[5:] if name.startswith('root.') else name
+
+
+def pred_rootname(sc, info):
+    """a system whose pathname merely starts with 'root' is listed without the 'root.' prefix: list_sources is wrong, the
+    listed name has no cases, the right name is 'not found'"""
+    rl = info.get('rootlike') or []
+    if not rl:
+        return False
+    cls = _cls(info)
+    if cls == 'sources':
+        exp, obs = set(info['expected']), set(info['observed'])
+        return exp - obs <= set(rl) and obs - exp <= set(_strip_root(x) for x in rl)
+    if cls in ('listing', 'nested-listing'):
+        return any(info['query']['src'] in (x, _strip_root(x)) for x in rl)
+    if cls == 'source-vars':
+        return any(info['sv']['src'] in (x, _strip_root(x)) for x in rl)
+    if cls == 'case-source':                       # Case.source of a solver case (the solver table's own list)
+        return public_source(info.get('req') or 'driver') in rl
+    return False
 
 
 def run(ctx):
@@ -863,13 +966,13 @@ def run(ctx):
     if not traces:
         raise MachineryError('no traces')
     path = ctx.write_json('rec_traces.json', traces)
-    cfg = ctx.write_cfg('RecorderJudge.cfg', 'INIT Init\nNEXT Next\nINVARIANT Export\nINVARIANT FileOK\n')
+    cfg = ctx.write_cfg('RecorderJudge.cfg', 'INIT Init\nNEXT Next\nCONSTANT Fix = {}\nINVARIANT Export\nINVARIANT FileOK\n')
     tr_ = ctx.tlc_check('mech/RecorderJudge', cfg, env={'REC_TRACES': path}, timeout=3000, coverage=False, workers=TLC_WORKERS,
                         heap='10g')
     v = {e['tid']: e for e in tr_.exports('EXP')}
     if len(v) != len(traces):
         raise MachineryError('verdicts missing: %d of %d\n%s' % (len(v), len(traces), tr_.tail(30)))
-    nq = ncases = nval = nev = 0
+    nq = ncases = nval = nev = nroot = nprobfiles = 0
     kinds = {}
     for k, (tr, (r, lab)) in enumerate(zip(traces, owners)):
         e = v[k + 1]
@@ -888,14 +991,20 @@ def run(ctx):
             ctx.violation(scen, 'event stream accepted by Recorder.tla', {'verdict': vd, 'event': bad, 'index': e['l'] - 1},
                           'stream: ' + vd['step'], info={'class': 'stream', 'step': vd['step']})
             continue
-        nq += len(tr['q'])
+        nq += len(tr['q']) + len(tr['idx'])
         ncases += vd['ncases']
+        # attached systems / solvers whose pathname merely starts with 'root' (C17-name-starting-with-root)
+        rootlike = sorted(public_source(x) for x in tr['att'] if ':' in x and x.split(':', 1)[1].startswith('root'))
+        if rootlike:
+            nroot += 1
+        if any('|' not in c for c in tr['all']):
+            nprobfiles += 1
         if not vd['order']:
             ctx.violation(scen, {'list_cases()': 'execution order'}, {'list_cases()': tr['all'][:12]}, 'order: list_cases() is not the execution order',
                           info={'class': 'order'})
         if not vd['sources']:
             ctx.violation(scen, {'sources': vd['expsources']}, {'sources': tr['sources']}, 'sources: list_sources',
-                          info={'class': 'sources'})
+                          info={'class': 'sources', 'expected': vd['expsources'], 'observed': tr['sources'], 'rootlike': rootlike})
         seen = set()
         for b in vd['badq']:
             q = tr['q'][b['q'] - 1]
@@ -904,7 +1013,7 @@ def run(ctx):
                 continue
             seen.add(cls)
             ctx.violation(dict(scen, query={'source': q['src'], 'recurse': q['rec'], 'flat': q['flat']}), _short(b['exp']), _short(q['ans']),
-                          'list_cases: ' + cls, info=dict(tr['flags'], **{'class': cls, 'query': q, 'att': tr['att']}))
+                          'list_cases: ' + cls, info=dict(tr['flags'], **{'class': cls, 'query': q, 'att': tr['att'], 'rootlike': rootlike}))
         seen = set()
         for b in vd['badc']:
             c = tr['cases'][b['c'] - 1]
@@ -916,11 +1025,20 @@ def run(ctx):
                           {'inputs': b['inp'], 'outputs': b['out'], 'residuals': b['res'], 'source': None},
                           {'inputs': c['inp'], 'outputs': c['out'], 'residuals': c['res'], 'source': c['source']},
                           'case %s: %s recorder' % (b['what'], b['req'].split(':')[0]),
-                          info=dict(tr['flags'], **{'class': 'case-' + b['what'], 'req': b['req'], 'opts': tr['opts'].get(b['req'])}))
+                          info=dict(tr['flags'], **{'class': 'case-' + b['what'], 'req': b['req'], 'opts': tr['opts'].get(b['req']),
+                                                    'rootlike': rootlike}))
+        for b in vd['badi'][:1]:
+            g = tr['idx'][b['g'] - 1]
+            target = tr['all'][b['pos'] - 1] if 1 <= b['pos'] <= len(tr['all']) else None
+            ctx.violation(dict(scen, index=g['i']), {'get_case(%d)' % g['i']: _short(b['exp']), 'counter': b['pos']},
+                          {'get_case(%d)' % g['i']: g['ans'], 'counter': g['cnt']},
+                          'get_case(<int>): not the index-th case of list_cases()',
+                          info={'class': 'get_case-index', 'problem_case': target is not None and '|' not in target,
+                                'wrong': vd['nbadi']})
         for b in vd['bads'][:1]:
             sv = tr['srcvars'][b['s'] - 1]
             ctx.violation(dict(scen, source=sv['src']), 'the selected variables of the source (absolute names)', sv,
-                          'list_source_vars: ' + b['what'], info={'class': 'source-vars', 'sv': sv})
+                          'list_source_vars: ' + b['what'], info={'class': 'source-vars', 'sv': sv, 'what': b['what'], 'rootlike': rootlike})
         vals = r['values'].get(lab)
         if vals is not None:
             if isinstance(vals, tuple):
@@ -946,22 +1064,29 @@ def run(ctx):
     ctx.evaluations = nq + ncases + nval
     ctx.exhaustive = False
     ctx.extra.update({'refuted_on_the_spec': refuted, 'events_replayed': nev, 'reader_queries_judged': nq, 'cases_judged': ncases,
-                      'values_compared': nval, 'scenarios_by_kind': kinds, 'skipped': skipped})
+                      'values_compared': nval, 'scenarios_by_kind': kinds, 'skipped': skipped,
+                      'files_with_a_system_named_root_something': nroot, 'files_with_problem_cases': nprobfiles})
     for tr, (r, lab) in list(zip(traces, owners))[:2]:
         ctx.sample({'seed': r['seed'], 'kind': r['sc']['kind'], 'attached': tr['att'], 'options': tr['opts'], 'events': tr['ev'][:10],
                     'query': {k: (x if k != 'ans' else _short(x)) for k, x in tr['q'][4].items()} if len(tr['q']) > 4 else None})
     ctx.rule = ('(a) every run tree within the bounds of RecorderMC.tla; (b) per seed: gen_model (feed-forward / coupled with NLBGS, Newton, '
                 'NLBJ, Broyden; units, src_indices, promotion; 25% with solver scaling), a driver kind (run_model sequences with and '
                 'without case_prefix incl. 12 runs, DOEDriver 2-3 or 12 points in 1-2 run_driver calls, SLSQP), one or two SqliteRecorders '
-                'attached to a random subset of problem/driver/systems/nonlinear solvers, random recording_options per requester; '
+                'attached to a random subset of problem/driver/systems/nonlinear solvers (30% with the problem forced in), random '
+                'recording_options per requester, some systems renamed to root<name>; the reader is asked list_sources, list_source_vars, '
+                'list_cases(source | coordinate) x recurse x flat, get_case(name), get_case(int: every index for <= 12 cases, else the '
+                'ends and the problem cases, both signs, one past each end); '
                 'non-trivial = distinct (seed, file): each has its own attachment subset, options and event stream')
     ctx.assumptions = [
         'serial runs (no MPI), SqliteRecorder / SqliteCaseReader, no discrete variables, no auto-IVC sources, no constraint aliases',
+        'no top-level system is called exactly "root" (the file format writes the model root as "root": such a file is ambiguous); names that '
+        'merely start with "root" are exercised',
         'coordinates are kept unique by the run sequences (run_model(reset_iter_counts=False) or a distinct case_prefix per run): '
         'repeated runs with reset counters and no prefix overwrite nothing but produce identical coordinates (documented use of case_prefix)',
         'recorders are attached before the first final_setup; record_derivatives is off; line-search recorders are not attached',
         'selection semantics are those the code documents: excludes win over includes; design variables/responses are added after the '
-        'filters; the outputs table of a driver/problem case needs record_outputs; includes/excludes match promoted names of outputs '
+        'filters by their own record_* flags, whatever record_outputs says (Driver._get_vars_to_record; the sources of the recorded '
+        'promoted inputs likewise); includes/excludes match promoted names of outputs '
         '(relative to the recording system), absolute names of inputs, and solver patterns are relative to the solver\'s group',
         'values: recorded == independent live snapshot of the root vectors taken inside the record call (physical values; where the '
         'harness has to unscale a solver-scaled vector itself the comparison uses 1e-12 relative)',
@@ -1001,6 +1126,15 @@ PREDICATES = {
     # several requesters in one file: the file-wide promoted names are those of the requester started last
     'C17-prom-name-collision': lambda sc, info: _cls(info) == 'source-vars' and
     any('COLLISION' in n for k in ('out', 'res') for n in info['sv'][k]),
+    # a subsystem whose pathname merely starts with 'root' ('rootfinder') is taken for an already rooted name
+    'C17-name-starting-with-root': pred_rootname,
+    # get_case(<int>) with an index that falls on a problem case hands the integer on to the driver table
+    'C17-get_case-index-problem-case': lambda sc, info: _cls(info) == 'get_case-index' and bool(info.get('problem_case')),
+    # driver / problem recorder with record_outputs=False: the design variables / responses selected by record_desvars,
+    # record_objectives, record_constraints, record_responses (and the sources of recorded promoted inputs) are dropped
+    'C17-vois-need-record-outputs': lambda sc, info:
+    (_cls(info) == 'case-outputs-need-record_outputs' and not info['opts']['record_outputs']) or
+    (_cls(info) == 'source-vars' and info.get('what') == 'outputs-need-record_outputs'),
 }
 
 
